@@ -338,9 +338,12 @@ Fixpoint parse_loop (fuel : nat) (st : pstate) (data : list Z) : option et_catal
   | S f =>
       match cat_parse_step st (firstn 32 data) with
       | None => None
-      | Some (PSections v i secs sa, true) => Some (mk_cat v i secs sa)
-      | Some (_, true) => None
-      | Some (st', false) => parse_loop f st' (skipn 32 data)
+      | Some (st', done) =>
+          if done then match st' with
+                       | PSections v i secs sa => Some (mk_cat v i secs sa)
+                       | _ => None
+                       end
+          else parse_loop f st' (skipn 32 data)
       end
   end.
 Definition parse_catalog (data : list Z) : option et_catalog :=
